@@ -613,7 +613,8 @@ func (p *parser) readDirUse() (du *DirectiveUse, err error) {
 		}
 		for _, a := range dir.args.list {
 			if av := du.Args[a.N]; av == nil {
-				du.Args[a.N] = &ArgValue{Arg: a.N, Value: a.Default, line: du.line, col: du.col}
+				// (a copy, the use does not share lists and objects with the definition)
+				du.Args[a.N] = &ArgValue{Arg: a.N, Value: cloneValue(a.Default), line: du.line, col: du.col}
 			}
 		}
 	}
